@@ -405,7 +405,7 @@ func (g *generator) walkList(schema *schemaparser.Schema) (ast.Type, error) {
 		return ast.Type{}, err
 	}
 
-	return ast.NewArray(itemsDef, ast.Default(schema.Default)), nil
+	return ast.NewArray(itemsDef, ast.Default(unwrapJSONNumbers(schema.Default))), nil
 }
 
 func (g *generator) walkEnum(schema *schemaparser.Schema) (ast.Type, error) {
